@@ -38,6 +38,9 @@ BLOCKS = {
                      "dihedrals": [I(["BB", "D1", "D2", "D3"], ["9", "0", "1.5", "1"], {"version": 1}),
                                    I(["BB", "D1", "D2", "D3"], ["9", "180", "2.5", "2"], {"version": 2})],
                      "constraints": [I(["BB", "D2"], ["1", "0.25"], {"ifndef": "FLEX"})]}),
+    "E": dict(nrexcl=1,     # shares the atom names BB / SC1 with block C
+              atoms=[("BB", "E1", 0.0, 30.0, 1), ("SC1", "E2", 0.05, 31.0, 2)],
+              inter={"bonds": [I(["BB", "SC1"], ["1", "0.34", "1004"])]}),
     # protein-named blocks for terminal modifications
     "ALA": dict(nrexcl=1,
                 atoms=[("BB", "P4", 0.0, 72.0, 1), ("SC1", "C3", 0.0, 36.0, 2)],
@@ -105,6 +108,10 @@ LINKS = {
                atoms={"BB": {}, "+SA": {"resname": "A", "replace": {"atomname": None}}},
                inter={}, edges=[("BB", "+SA", {})]),
 }
+# residue names given on some atoms only: BB / +BB carry them, SA / +SC1 (same residues) do not
+LINKS["partial"] = dict(resname=None, atoms={"BB": {"resname": "A"}, "+BB": {"resname": "C"}},
+                        inter={"bonds": [I(["BB", "+BB"], ["1", "0.37", "7000"])],
+                               "angles": [I(["SA", "BB", "+BB"], ["2", "125", "25"]), I(["BB", "+BB", "+SC1"], ["2", "135", "35"])]})
 # pattern link: bond SC between BB and +BB restricted by [ patterns ] rows to (A,B) or (C,A)
 LINKS["pat"] = dict(resname=["A", "B", "C", "D"],
                     inter={"constraints": [I(["BB", "+BB"], ["2", "0.44"])]},
